@@ -512,6 +512,78 @@ mutant("request-posted-during-acceptance-is-kept", [], quiet=["C05", "C06", "C07
     ("cpu.go", """			vector := cpu.Interrupt.Data[0] & 0xfe""", """			vector := req.Data[0] & 0xfe"""),
 ], note="the slot is emptied before the acceptance, so a request a device posts during the acknowledge push survives until the next Step instead of being erased with the served one: no statement promises an empty slot after an acceptance")
 
+# ---- fourth informed review: legitimate variants that alarmed (all must stay quiet now) ------------
+mutant("bdos-keeps-a-private-variable-in-its-page", [], quiet=["C18"], edits=[("internal/tinycpm/tinycpm.go", """	0x79, 0xfe, 0x02, 0x28, 0x05, 0xfe, 0x09, 0x28, 0x05, 0x76, 0x7b, 0xd3,""", """	0x79, 0x32, 0x80, 0xff, 0xfe, 0x02, 0x28, 0x05, 0xfe, 0x09, 0x28, 0x05, 0x76, 0x7b, 0xd3,""")],
+       note="LD (FF80h),A in the BDOS stub: the system's own page is not the caller's memory")
+mutant("tinycpm-default-warn-logger-made-at-package-level", [], quiet=["C18"], edits=[("internal/tinycpm/tinycpm.go", """// NewIO creates a new I/O, which used with minimal CP/M
+func NewIO() *IO {
+	return &IO{
+		stdout: os.Stdout,
+		warnl:  log.New(os.Stderr, "[WARN][IO]", 0),
+	}
+}""", """var defaultWarnLogger = log.New(os.Stderr, "[WARN][IO]", 0)
+
+var defaultStdout io.Writer = os.Stdout
+
+// NewIO creates a new I/O, which used with minimal CP/M
+func NewIO() *IO {
+	return &IO{
+		stdout: defaultStdout,
+		warnl:  defaultWarnLogger,
+	}
+}""")], note="defaults captured when the package is initialised: they still are the process's standard streams")
+mutant("ignored-index-prefix-is-warned-and-the-next-opcode-runs-in-the-same-step", [], quiet=["C12", "C08", "C05", "C06", "C13"], edits=[
+    ("operation.go", """func (cpu *CPU) executeOne() {
+	switch c0 := cpu.fetchM1(); c0 {""", """func (cpu *CPU) executeOne() {
+	cpu.execute(cpu.fetchM1())
+}
+
+func (cpu *CPU) ignoredPrefix(c0, c1 uint8) {
+	cpu.invalidCode(c0)
+	if c1 == 0xdd || c1 == 0xed || c1 == 0xfd {
+		// left for the next Step
+		cpu.PC--
+		rc := cpu.IR.Lo
+		cpu.IR.Lo = rc&0x80 | (rc-1)&0x7f
+		return
+	}
+	cpu.execute(c1)
+}
+
+func (cpu *CPU) execute(c0 uint8) {
+	switch c0 {"""),
+    ("operation.go", """		default:
+			cpu.invalidCode(c0, c1)
+		}
+
+	case 0xed:""", """		default:
+			cpu.ignoredPrefix(c0, c1)
+		}
+
+	case 0xed:"""),
+    ("operation.go", """		default:
+			cpu.invalidCode(c0, c1)
+		}
+
+	default:
+		cpu.invalidCode(c0)""", """		default:
+			cpu.ignoredPrefix(c0, c1)
+		}
+
+	default:
+		cpu.invalidCode(c0)"""),
+], note="as silicon: a DD/FD in front of an opcode it does not modify is ignored (warned about) and that opcode executes at once - data accesses, jumps, HALT and all")
+mutant("library-warnings-through-an-own-logger-on-stderr", [], quiet=["C12", "C05"], edits=[("cpu.go", """func (cpu *CPU) warnf(msg string, args ...interface{}) {
+	log.Printf("Z80 warn: "+msg, args...)
+}""", """var warnLogger = log.New(os.Stderr, "Z80 warn: ", log.LstdFlags)
+
+func (cpu *CPU) warnf(msg string, args ...interface{}) {
+	warnLogger.Printf(msg, args...)
+}"""), ("cpu.go", """import (
+""", """import (
+	"os"
+""")], note="a chatty library on the real stderr must not block for want of a reader (worker output goes to files)")
+
 def run(cmd, **kw):
     return subprocess.run(cmd, stdout=subprocess.PIPE, stderr=subprocess.STDOUT, text=True, **kw)
 
